@@ -11,8 +11,8 @@ from .. import kernel
 PROPERTY = 'C15'
 LEVEL = 'model_checking'
 STATES_FROM_COUNTERS = ('schedules', 'scheduling_points')     # complete schedules explored / scheduling decisions taken
-RULE = ('(a) every sequence of <= 3 (quick) / 4 (thorough) runs on one thread over 16 kinds {ok, root raises (4 exception types), root returns a truthy / '
-        'falsy value, activities blocked for ever, till (one / several survivors, till 0, till = start), nested run that succeeds / fails / leaks}, each with its own start time; '
+RULE = ('(a) every sequence of <= 3 (quick) / 4 (thorough) runs on one thread over 18 kinds {ok, root raises (4 exception types), root returns a truthy / '
+        'falsy value, activities blocked for ever, till (one / several survivors, till 0, till = start, activities parked in tickers / start delays / at the end of their own scope), nested run that succeeds / fails / leaks}, each with its own start time; '
         '(b) every interleaving of 2 (preemption bound 3 quick / 5 thorough) and 3 (preemption bound 1 quick / 2 thorough) OS threads '
         'that each run a small simulation (thorough: 2 threads with <= 5 preemptions), under a controlled scheduler with scheduling points after every activation and around the '
         'assignment of the thread\'s current loop. Oracle: time.now raises outside of run() in every thread; roots start at `start` '
@@ -41,7 +41,7 @@ class Boom(Exception):
 
 # ---- (a) run histories --------------------------------------------------------------------------------
 KINDS = ('ok', 'raise', 'raise-IndexError', 'raise-KeyError', 'raise-StopIteration', 'return7', 'return0', 'returnFalse', 'blocked',
-         'till', 'till0', 'till3', 'tillnow', 'nested-ok', 'nested-raise', 'nested-leak')
+         'till', 'till0', 'till3', 'tillnow', 'till-parked', 'till-scope', 'nested-ok', 'nested-raise', 'nested-leak')
 
 
 def do_run(kind, start, log):
@@ -123,6 +123,34 @@ def do_run(kind, start, log):
         usim.run(a('a', 2), a('b', 0), a('c', 1), start=start, till=start)
         if any(m[2] != start for m in marks):
             msgs.append('tillnow: %r' % (marks,))
+    elif kind == 'till-parked':
+        # activities that are parked in a ticker / wait for their start date when the deadline closes them: run returns
+        # at the deadline, nothing of them is left behind
+        async def ticker(name, it):
+            marks.append((name, 'start', time.now))
+            async for now in it:
+                marks.append((name, 'tick', now))
+
+        async def launcher(name):
+            marks.append((name, 'start', time.now))
+            async with Scope() as scope:
+                scope.do(a(name + '-late', 1), after=5)
+                scope.do(a(name + '-at', 1), at=start + 4)
+                await eternity
+        usim.run(ticker('i', usim.interval(3)), ticker('d', usim.delay(5)), launcher('l'), a('c', 1), start=start, till=start + 2)
+        if ('c', 'end', start + 1) not in marks or any(m[2] > start + 2 for m in marks) or len(marks) != 5:
+            msgs.append('till-parked: %r' % (marks,))
+    elif kind == 'till-scope':
+        # a root activity that waits at the end of its own scope for its children when the deadline arrives
+        async def parent(name):
+            marks.append((name, 'start', time.now))
+            async with Scope() as scope:
+                scope.do(a(name + '1', 5))
+                scope.do(a(name + '2', 3))
+            marks.append((name, 'end', time.now))
+        usim.run(parent('p'), parent('q'), a('c', 1), start=start, till=start + 2)
+        if ('c', 'end', start + 1) not in marks or any(m[1] == 'end' and m[0] != 'c' for m in marks) or any(m[2] > start + 2 for m in marks):
+            msgs.append('till-scope: %r' % (marks,))
     elif kind.startswith('nested'):
         inner_kind = {'nested-ok': 'ok', 'nested-raise': 'raise', 'nested-leak': 'return0'}[kind]
         inner_msgs = []
